@@ -296,6 +296,10 @@ func genStreams(seed uint64, n, max int, emit func(interface{})) {
 func genPairs(seed uint64, n, max int, emit func(interface{})) {
 	r := newRng(seed ^ 0x5151)
 	for i := 0; i < n; i++ {
+		if i%5 == 3 {
+			emit(genLongDups(r, fmt.Sprintf("pl-%d-%d", seed, i)))
+			continue
+		}
 		sc := genStreamScenario(r, fmt.Sprintf("pr-%d-%d", seed, i), r.rangeInt(2, 6), max)
 		sc.Kind = "pair"
 		mode := r.intn(3) // 0 dups only, 1 drops only, 2 both
@@ -333,4 +337,66 @@ func genPairs(seed uint64, n, max int, emit func(interface{})) {
 		sc.Pkts = out
 		emit(sc)
 	}
+}
+
+// genLongDups: one long elementary stream (the continuity counter wraps several times) with two or three legal duplicates whose
+// duplicated packets carry the same counter value (16, 32 .. packets apart)
+func genLongDups(r *rng, sid string) streamScenario {
+	var sc streamScenario
+	for try := 0; try < 50; try++ {
+		sc = genStreamScenario(r, sid, 2, 14)
+		cnt := map[int]int{}
+		for _, p := range sc.Pkts {
+			if p.K == "" {
+				cnt[p.PID]++
+			}
+		}
+		best := -1
+		for pid, c := range cnt {
+			if pid != 0 && c >= 36 {
+				best = pid
+			}
+		}
+		if best < 0 {
+			continue
+		}
+		// positions (among the PID's packets) of non-PUSI packets
+		var idx []int
+		k := 0
+		for i, p := range sc.Pkts {
+			if p.K == "" && p.PID == best {
+				if !p.PUSI {
+					idx = append(idx, i)
+				}
+				k++
+			}
+		}
+		var chosen []int
+		for _, a := range idx {
+			for _, b := range idx {
+				if b > a && sc.Pkts[a].CC == sc.Pkts[b].CC {
+					chosen = []int{a, b}
+				}
+			}
+			if chosen != nil && r.intn(3) == 0 {
+				break
+			}
+		}
+		if chosen == nil {
+			continue
+		}
+		var out []pktSpec
+		for i, p := range sc.Pkts {
+			out = append(out, p)
+			if i == chosen[0] || i == chosen[1] {
+				d := p
+				d.F = "dup"
+				out = append(out, d)
+			}
+		}
+		sc.Pkts = out
+		break
+	}
+	sc.Kind = "pair"
+	return sc
 }
